@@ -51,7 +51,7 @@ CHECKS = {
          "DESIGN.md §4 C08"),
  "C09": ("enum", "model_checking",
          "bounded-exhaustive enumeration of input strings × operator sets through the real lexer, checked against model-free span invariants and a hand-written reference scanner",
-         "All strings of <= 4 (thorough 5) atoms over a 35-atom mixed alphabet (keywords, ASCII / non-ASCII letters, digits and radix prefixes, exponent letters, dot, operator characters, quotes, backslash, white space incl. newline) under eleven operator sets (built-in, with the non-ASCII operator character ˆ, prefix-overlapping symbolic, containing . and ?, identifier-like with common prefixes, non-ASCII identifier-like, empty, and two pairs of sets whose symbols concatenate to the same text): tokens must be in source order, non-overlapping, separated only by white space, with runes[Idx:IdxEnd] == Lexeme and Line / Col recomputed from the text, and the token sequence must equal the reference scanner's (longest registered symbolic operator, whole-word identifier-like operators and true / false, . and ? never split out of a longer operator, each literal form one token); error iff the reference errors.",
+         "All strings of <= 4 (thorough 5) atoms over a 35-atom mixed alphabet (keywords, ASCII / non-ASCII letters, digits and radix prefixes, exponent letters, dot, operator characters, quotes, backslash, white space incl. newline) under thirteen operator sets (the prefix-overlapping set in three declaration orders; built-in, with the non-ASCII operator character ˆ, prefix-overlapping symbolic, containing . and ?, identifier-like with common prefixes, non-ASCII identifier-like, empty, and two pairs of sets whose symbols concatenate to the same text): tokens must be in source order, non-overlapping, separated only by white space, with runes[Idx:IdxEnd] == Lexeme and Line / Col recomputed from the text, and the token sequence must equal the reference scanner's (longest registered symbolic operator, whole-word identifier-like operators and true / false, . and ? never split out of a longer operator, each literal form one token); error iff the reference errors.",
          "Trusted: mc/ref/lex.go (no regexp). The literal grammars of lexer/factory.go are taken as the documented lexical grammar.",
          "DESIGN.md §4 C09"),
 
@@ -68,7 +68,7 @@ CHECKS = {
 
  "C10": ("enum", "model_checking",
          "bounded-exhaustive enumeration of sugared terms (every node kind in every operand and callee position) parsed and desugared by the real code, compared with an independently computed core form; sugared vs explicit evaluation",
-         "Structural half: all terms of depth <= 2 over 18 constructors (infix, prefix, ?:, method calls, parentheses, calls, calls of arbitrary callee expressions, subscript, member, literals) are rendered, parsed and desugared: the result must equal the core form computed on the harness's own term (op(x,y), op(x), if(c,a,b), f(o,args), e), contain no sugar node, be a fixpoint of Desugar (spans included), carry the operator columns in source order, and leave the parsed tree (deep snapshot) untouched. Semantic half: every well-typed program of the small-alphabet and effects corpora is evaluated from sugared source and from the explicit core tree built with the ast constructors through Expr.CompileExpr — same outcome, value and host-call trace — plus paired source texts, each also on an engine built with UseBuiltIn(false) and the same operators / functions registered by hand, and a callee family (6 x 6 sugar forms inside 8 shapes of computed callees and their arguments).",
+         "Structural half: all terms of depth <= 2 over 3 atoms (a variable, a number, a boolean literal) and 18 constructors (infix, prefix, ?:, method calls, parentheses, calls, calls of arbitrary callee expressions, subscript, member, literals) are rendered, parsed and desugared: the result must equal the core form computed on the harness's own term (op(x,y), op(x), if(c,a,b), f(o,args), e), contain no sugar node, be a fixpoint of Desugar (spans included), carry the operator columns in source order, and leave the parsed tree (deep snapshot) untouched. Semantic half: every well-typed program of the small-alphabet and effects corpora is evaluated from sugared source and from the explicit core tree built with the ast constructors through Expr.CompileExpr — same outcome, value and host-call trace — plus paired source texts, each also on an engine built with UseBuiltIn(false) and the same operators / functions registered by hand, and on engines with an additional identity translator registered before / after first use; sugar written without parentheses inside list / map / object literals, call arguments and subscripts; and a callee family (6 x 6 sugar forms inside 8 shapes of computed callees and their arguments).",
          "Trusted: the term renderer and coreString (mc/props/c10.go). Known finding: Desugar is not idempotent on (o.m)(x).",
          "DESIGN.md §4 C10"),
  "C11": ("enum", "model_checking",
